@@ -269,12 +269,13 @@ class Net:
         """reference reading of percolate_space_strict: closure from the given values alone over variables with
         non-constant update function; report v=c iff f_v is determined c on the closure and v is not given with the
         other value"""
+        # a free input has no update function: nothing is ever derived for it (its value is only ever given)
         cl = dict(sp)
         ch = True
         while ch:
             ch = False
             for i, nm in enumerate(self.names):
-                if self.is_const_fn(i) or nm in cl:
+                if self.is_const_fn(i) or nm in cl or i in self.inputs:
                     continue
                 c = self.const_on(i, self.mask_of(cl))
                 if c is not None:
@@ -283,7 +284,7 @@ class Net:
         out = {}
         m = self.mask_of(cl)
         for i, nm in enumerate(self.names):
-            if self.is_const_fn(i):
+            if self.is_const_fn(i) or i in self.inputs:
                 continue
             c = self.const_on(i, m)
             if c is not None and (nm not in sp or sp[nm] == c):
